@@ -46,6 +46,7 @@ def cases(draw, prof):
                 e["v"] = e["v"][:1]
         if spec["instr"].get("stop") is not None:
             spec["instr"]["stop"] = Y + draw(st.integers(0, nsteps)) * dt + draw(st.sampled_from([0.0, 0.3 * dt]))
+        case["derived_instructions"] = draw(st.integers(0, 3)) == 0
     elif kind == "series-change":
         q = draw(st.sampled_from([p["name"] for p in spec["progs"]["progs"]]))
         what = draw(st.sampled_from(["alloc", "alloc", "capacity", "coverage"]))
@@ -130,7 +131,13 @@ def check(case):
     except Exception as e:
         raise Discard("atomica raised %s at %s while building (decided by C18)" % (type(e).__name__, simcase.atomica_frame(e)))
     if kind == "prog-start":
-        _, resA = simcase.run_spec(spec, b=dict(b))
+        bA = dict(b)
+        if case.get("derived_instructions") and bA.get("instructions") is not None:
+            # the instructions that are run were DERIVED from the given ones through the library's own helper (budget x 1): same start
+            # and stop years, same series
+            bA["instructions"] = bA["instructions"].scale_alloc(1.0)
+            labels.append("instructions:scale_alloc(1)")
+        _, resA = simcase.run_spec(spec, b=bA)
         b0 = dict(b)
         b0["progset"], b0["instructions"] = None, None
         _, resB = simcase.run_spec(spec, b=b0)
